@@ -391,7 +391,7 @@ func ruleHelpers(c *Ctx, r *Report, rule string) {
 	if _, fd := c.find("parser.beginScope"); fd != nil {
 		incs := 0
 		bad := false
-		ast.Inspect(fd.Body, func(n ast.Node) bool {
+		ast.Inspect(&ast.BlockStmt{List: c.expandedStmts(fd)}, func(n ast.Node) bool {
 			switch n := n.(type) {
 			case *ast.IncDecStmt:
 				if c.fieldPath(n.X) == "<parser>.scope.depth" && n.Tok.String() == "++" {
